@@ -13,6 +13,7 @@ pub mod cont_case;
 pub mod prim_case;
 pub mod prim_out_case;
 pub mod deep_case;
+pub mod nested_case;
 pub mod total_case;
 pub mod compress_case;
 pub mod stress_case;
